@@ -8,7 +8,6 @@ import (
 
 func init() {
 	Generators["C11"] = GenC11
-	Generators["C12"] = GenC12
 }
 
 var allIntTypes = []string{"uint8", "uint16", "uint24", "uint32", "uint64", "uint96", "uint128", "uint160", "uint248", "uint256", "int8", "int16", "int24", "int32", "int64", "int128", "int256", "address", "bool", "bytes32", "bytes1", "bytes20"}
@@ -154,6 +153,3 @@ func GenC11(seed uint64) *Plan {
 	p.MaxSteps = 3000
 	return p
 }
-
-// GenC12 placeholder until the filter generator lands.
-func GenC12(seed uint64) *Plan { return GenC11(seed) }
